@@ -52,7 +52,7 @@ var opaquePrefixes = []string{
 var noInitPrefixes = []string{
 	"runtime", "reflect", "internal/", "syscall", "os", "net", "unsafe", "testing", "errors",
 	"github.com/libp2p/", "sync", "time", "unicode", "fmt", "strconv", "crypto/",
-	"github.com/stretchr/", "github.com/klauspost/cpuid", "golang.org/x/sys", "github.com/filecoin-project/go-keccak",
+	"github.com/stretchr/", "github.com/klauspost/cpuid", "github.com/klauspost/compress", "golang.org/x/sys", "github.com/filecoin-project/go-keccak",
 	"github.com/consensys/gnark-crypto", "go.dedis.ch/", "github.com/cloudflare/circl", "github.com/minio/sha256-simd",
 	"github.com/filecoin-project/go-f3/internal/gnark", "github.com/filecoin-project/go-f3/blssig",
 	"github.com/zeebo/blake3", "lukechampine.com/blake3", "github.com/bits-and-blooms", "github.com/marcboeker", "github.com/apache/arrow",
